@@ -146,7 +146,94 @@ func c35moqOptions(r *verifutil.Rand) []byte {
 	return b
 }
 
+// c35moqParamMsg: a structurally VALID control message (SUBSCRIBE, SUBSCRIBE_OK, PUBLISH, PUBLISH_OK,
+// REQUEST_OK) whose parameter block is hostile: AUTHORIZATION_TOKEN TLVs with declared lengths 0 / 1 /
+// cutting the inner varints / exact / too long, inner varints of every size, followed by a further
+// parameter, track properties or trailing bytes.
+func c35moqParamMsg(r *verifutil.Rand) []byte {
+	t := []uint64{0x03, 0x03, 0x1d, 0x1d, 0x04, 0x1e, 0x07}[r.Intn(7)]
+	var payload []byte
+	if t == 0x03 || t == 0x1d {
+		payload = c35vi(uint64(r.Intn(300)))
+		nparts := r.Intn(3)
+		payload = append(payload, c35vi(uint64(nparts))...)
+		for i := 0; i < nparts; i++ {
+			part := r.Bytes(r.Intn(5))
+			payload = append(payload, c35vi(uint64(len(part)))...)
+			payload = append(payload, part...)
+		}
+		tn := []byte(r.Pick("catalog", "0", "1", ""))
+		payload = append(payload, c35vi(uint64(len(tn)))...)
+		payload = append(payload, tn...)
+		if t == 0x1d {
+			payload = append(payload, c35vi(uint64(r.Intn(5)))...)
+		}
+	}
+	if t == 0x04 {
+		payload = c35vi(uint64(r.Intn(300)))
+	}
+	np := 1 + r.Intn(2)
+	count := uint64(np)
+	if r.Intn(8) == 0 {
+		count = c35len(r, np)
+	}
+	payload = append(payload, c35vi(count)...)
+	for i := 0; i < np; i++ {
+		alias := uint64(3)
+		if r.Intn(10) == 0 {
+			alias = uint64(r.Intn(6))
+		}
+		tt := []uint64{0, 1, 5, 127, 128, 300, 1 << 20, 1 << 40, 1 << 63}[r.Intn(9)]
+		tok := r.Bytes(r.Intn(6))
+		if r.Intn(3) == 0 {
+			tok = []byte("Bearer x")[:r.Intn(9)]
+		}
+		inner := append(append(c35vi(alias), c35vi(tt)...), tok...)
+		var le uint64
+		switch r.Intn(8) {
+		case 0:
+			le = 0
+		case 1:
+			le = 1
+		case 2:
+			le = 2
+		case 3:
+			le = uint64(r.Intn(len(inner) + 1)) // cuts somewhere inside alias / token type / value
+		case 4:
+			le = uint64(len(inner) + 1 + r.Intn(3))
+		case 5:
+			le = c35len(r, len(inner))
+		default:
+			le = uint64(len(inner))
+		}
+		d := uint64(0)
+		if i == 0 {
+			d = 3
+		}
+		if r.Intn(12) == 0 {
+			d = uint64(r.Intn(5))
+		}
+		payload = append(payload, c35vi(d)...)
+		payload = append(payload, c35vi(le)...)
+		payload = append(payload, inner...)
+	}
+	switch r.Intn(4) {
+	case 0: // track properties (timestamp)
+		payload = append(payload, c35vi(6)...)
+		payload = append(payload, c35vi(uint64(r.Intn(100000)))...)
+	case 1: // trailing bytes that look like alias type 3 + a varint
+		payload = append(payload, 3, byte(r.Intn(128)), byte(r.Intn(256)))
+	case 2:
+		payload = append(payload, r.Bytes(r.Intn(5))...)
+	}
+	b := append(c35vi(t), byte(len(payload)>>8), byte(len(payload)))
+	return append(b, payload...)
+}
+
 func c35moqMsg(r *verifutil.Rand) []byte {
+	if r.Intn(3) == 0 {
+		return c35moqParamMsg(r)
+	}
 	var payload []byte
 	var t uint64
 	switch r.Intn(8) {
@@ -927,6 +1014,40 @@ func c35moqSetupBytes(r *verifutil.Rand, version string, quic bool, bidi bool) [
 	}
 }
 
+// c35moqRequestHistory: the setup exchange completes, then 1-2 request streams carry structurally valid
+// SUBSCRIBE / PUBLISH / *_OK messages with hostile parameter blocks (what a client can send before it is
+// authenticated), in fragments, for every draft and both transports.
+func c35moqRequestHistory(r *verifutil.Rand) []string {
+	version := r.Pick("moqt-16", "moqt-17", "moqt-18", "moqt-19")
+	quic := r.Intn(3) == 0
+	tr := "wt"
+	opts := controlmessage.Setup{}
+	if quic {
+		tr = "quic"
+		opts.Path = "/teststream"
+	}
+	ops := []string{"reset", "mq open " + version + " " + tr}
+	if version == "moqt-16" {
+		ops = append(ops, "mq bidi 0", "mq w 0 "+verifutil.Hex(controlmessage.ClientSetup(opts).Marshal()))
+	} else {
+		ops = append(ops, "mq uni 0", "mq w 0 "+verifutil.Hex(opts.Marshal()))
+	}
+	for id := 1; id <= 1+r.Intn(2); id++ {
+		ops = append(ops, fmt.Sprintf("mq bidi %d", id))
+		data := c35moqParamMsg(r)
+		if r.Bool() && len(data) > 4 {
+			c := 1 + r.Intn(len(data)-1)
+			ops = append(ops, fmt.Sprintf("mq w %d %s", id, verifutil.Hex(data[:c])), fmt.Sprintf("mq w %d %s", id, verifutil.Hex(data[c:])))
+		} else {
+			ops = append(ops, fmt.Sprintf("mq w %d %s", id, verifutil.Hex(data)))
+		}
+		if r.Intn(3) == 0 {
+			ops = append(ops, fmt.Sprintf("mq fin %d", id))
+		}
+	}
+	return append(ops, "mq state")
+}
+
 // c35moqHistory: one session, several client streams whose messages are cut into fragments and
 // interleaved in random order (partial writes, completion in either order, early FIN).
 func c35moqHistory(r *verifutil.Rand) []string {
@@ -1023,12 +1144,15 @@ func c35moqHistory(r *verifutil.Rand) []string {
 }
 
 func verifC35Gen(r *verifutil.Rand, i int, thorough bool) []string {
-	k := 16
+	k := 24
 	if thorough {
 		k = 96 // the socket / session ops are slow: keep the thorough tier within its budget
 	}
 	switch r.Intn(k) {
 	case 0:
+		if r.Bool() {
+			return c35moqRequestHistory(r)
+		}
 		return c35moqHistory(r)
 	case 1, 2:
 		if r.Intn(5) == 0 {
